@@ -6,12 +6,18 @@ import "verif/vrt"
 // Once is a controlled sync.Once: Do is a scheduling point; a second caller
 // waits until the first call completed (as sync.Once does) and then acquires.
 type Once struct {
-	obj     *vrt.Obj
-	state   int // 0 idle, 1 running, 2 done
+	obj   *vrt.Obj
+	state int // 0 idle, 1 running, 2 done
+	owner *vrt.Sched
 }
 
+// init binds the object to the running execution. A package-level object
+// survives from one execution of a worker process to the next: every
+// execution must find it as the program's start left it, not as the previous
+// execution did (a mutex still locked, a Once already fired).
 func (o *Once) init() {
-	if o.obj == nil {
+	if o.obj == nil || o.owner != vrt.S {
+		o.owner, o.state = vrt.S, 0
 		o.obj = vrt.NewObj("once")
 	}
 }
@@ -50,10 +56,12 @@ func (o *Once) Do(f func()) {
 type Mutex struct {
 	obj    *vrt.Obj
 	locked bool
+	owner  *vrt.Sched
 }
 
 func (m *Mutex) init() {
-	if m.obj == nil {
+	if m.obj == nil || m.owner != vrt.S {
+		m.owner, m.locked = vrt.S, false
 		m.obj = vrt.NewObj("mutex")
 	}
 }
@@ -96,10 +104,12 @@ type RWMutex struct {
 	obj     *vrt.Obj
 	writer  bool
 	readers int
+	owner   *vrt.Sched
 }
 
 func (m *RWMutex) init() {
-	if m.obj == nil {
+	if m.obj == nil || m.owner != vrt.S {
+		m.owner, m.writer, m.readers = vrt.S, false, 0
 		m.obj = vrt.NewObj("rwmutex")
 	}
 }
@@ -118,6 +128,7 @@ func (m *RWMutex) Unlock() {
 		m.writer = false
 		return
 	}
+	m.init()
 	vrt.Yield("wunlock", func() bool { return true })
 	m.writer = false
 	m.obj.Release()
@@ -138,6 +149,7 @@ func (m *RWMutex) RUnlock() {
 		m.readers--
 		return
 	}
+	m.init()
 	vrt.Yield("runlock", func() bool { return true })
 	m.readers--
 	m.obj.Release()
@@ -146,12 +158,14 @@ func (m *RWMutex) RUnlock() {
 
 // WaitGroup is a controlled sync.WaitGroup.
 type WaitGroup struct {
-	obj *vrt.Obj
-	n   int
+	obj   *vrt.Obj
+	n     int
+	owner *vrt.Sched
 }
 
 func (w *WaitGroup) init() {
-	if w.obj == nil {
+	if w.obj == nil || w.owner != vrt.S {
+		w.owner, w.n = vrt.S, 0
 		w.obj = vrt.NewObj("waitgroup")
 	}
 }
@@ -160,6 +174,7 @@ func (w *WaitGroup) Add(d int) {
 		w.n += d
 		return
 	}
+	w.init()
 	vrt.Yield("wg-add", func() bool { return true })
 	w.n += d
 	if w.n < 0 {
@@ -177,4 +192,128 @@ func (w *WaitGroup) Wait() {
 	vrt.Yield("wg-wait", func() bool { return w.n == 0 })
 	vrt.Touch("wg-wait", []*vrt.Obj{w.obj}, nil)
 	w.obj.Acquire()
+}
+
+// Map is a controlled sync.Map: every operation is a critical section of a
+// controlled mutex (two scheduling points), the contents start empty in every
+// execution.
+type Map struct {
+	mu    Mutex
+	m     map[interface{}]interface{}
+	owner *vrt.Sched
+}
+
+func (m *Map) enter() {
+	if m.m == nil || m.owner != vrt.S {
+		m.owner, m.m = vrt.S, map[interface{}]interface{}{}
+	}
+	m.mu.Lock()
+}
+
+func (m *Map) Load(k interface{}) (interface{}, bool) {
+	m.enter()
+	defer m.mu.Unlock()
+	v, ok := m.m[k]
+	return v, ok
+}
+func (m *Map) Store(k, v interface{}) {
+	m.enter()
+	defer m.mu.Unlock()
+	m.m[k] = v
+}
+func (m *Map) LoadOrStore(k, v interface{}) (interface{}, bool) {
+	m.enter()
+	defer m.mu.Unlock()
+	if old, ok := m.m[k]; ok {
+		return old, true
+	}
+	m.m[k] = v
+	return v, false
+}
+func (m *Map) LoadAndDelete(k interface{}) (interface{}, bool) {
+	m.enter()
+	defer m.mu.Unlock()
+	v, ok := m.m[k]
+	delete(m.m, k)
+	return v, ok
+}
+func (m *Map) Delete(k interface{}) { m.LoadAndDelete(k) }
+func (m *Map) Swap(k, v interface{}) (interface{}, bool) {
+	m.enter()
+	defer m.mu.Unlock()
+	old, ok := m.m[k]
+	m.m[k] = v
+	return old, ok
+}
+func (m *Map) CompareAndSwap(k, old, new interface{}) bool {
+	m.enter()
+	defer m.mu.Unlock()
+	if cur, ok := m.m[k]; ok && cur == old {
+		m.m[k] = new
+		return true
+	}
+	return false
+}
+func (m *Map) CompareAndDelete(k, old interface{}) bool {
+	m.enter()
+	defer m.mu.Unlock()
+	if cur, ok := m.m[k]; ok && cur == old {
+		delete(m.m, k)
+		return true
+	}
+	return false
+}
+
+// Range calls f for a snapshot of the entries (sync.Map does not hold a lock
+// during f either), in insertion-independent but deterministic order is not
+// promised by sync.Map; the snapshot is taken in map order.
+func (m *Map) Range(f func(k, v interface{}) bool) {
+	m.enter()
+	type kv struct{ k, v interface{} }
+	var all []kv
+	for k, v := range m.m {
+		all = append(all, kv{k, v})
+	}
+	m.mu.Unlock()
+	for _, e := range all {
+		if !f(e.k, e.v) {
+			return
+		}
+	}
+}
+
+// Pool is a controlled sync.Pool: Get hands out the most recently Put object
+// (the adversarial choice for code that keeps using what it has put back),
+// the pool starts empty in every execution.
+type Pool struct {
+	New   func() interface{}
+	mu    Mutex
+	items []interface{}
+	owner *vrt.Sched
+}
+
+func (p *Pool) enter() {
+	if p.owner != vrt.S {
+		p.owner, p.items = vrt.S, nil
+	}
+	p.mu.Lock()
+}
+func (p *Pool) Get() interface{} {
+	p.enter()
+	if n := len(p.items); n > 0 {
+		x := p.items[n-1]
+		p.items = p.items[:n-1]
+		p.mu.Unlock()
+		return x
+	}
+	p.mu.Unlock()
+	if p.New != nil {
+		return p.New()
+	}
+	return nil
+}
+func (p *Pool) Put(x interface{}) {
+	p.enter()
+	p.items = append(p.items, x)
+	p.mu.Unlock()
 }
